@@ -46,12 +46,16 @@ pub struct Eval {
 }
 
 pub fn validate(c: &Phys) -> Result<(usize, usize), Failure> {
+    validate_opt(c, false)
+}
+/// `allow_disconnected`: for the properties whose oracle does not need connectivity (C13, C14, C17, C18)
+pub fn validate_opt(c: &Phys, allow_disconnected: bool) -> Result<(usize, usize), Failure> {
     let g = &c.g;
     let ne = g.nedges();
     if ne == 0 || ne > 12 || !(1..=6).contains(&g.d) || g.massive.len() != ne || g.weights.len() != ne {
         fail!("bad-case", "graph outside the generator's domain");
     }
-    if !g.is_connected() {
+    if !g.is_connected() && !allow_disconnected {
         fail!("bad-case", "graph not connected");
     }
     let nl = g.num_loops();
